@@ -249,14 +249,19 @@ func report(w *vc.World, out *checkOutcome, seed int, writeEvidence, writeExpect
 			if len(samples) < 6 && !r.O.Trivial && r.O.Kind != "cover" {
 				samples = append(samples, map[string]any{"obligation": r.O.Name, "clause": r.O.Info, "solver": r.Solver, "seconds": round3(r.Seconds)})
 			}
-		case vc.ToolError:
-			out.toolErrors = append(out.toolErrors, r.O.Name+": "+r.Output)
-		case vc.Refuted, vc.Undecided:
+		case vc.Refuted, vc.Undecided, vc.ToolError:
 			v := violation{obligation: r.O.Name}
-			if r.Status == vc.Refuted {
+			switch r.Status {
+			case vc.Refuted:
 				v.reason = "refuted by " + r.Solver + " (counter-model found)"
-			} else {
+			case vc.Undecided:
 				v.reason = "no solver could discharge it (undecided within the time limit)"
+			default:
+				// the obligation exists but could not be discharged: a vacuity guard fired
+				// (the code path became unreachable / the assumptions contradictory), the
+				// solvers rejected the query or disagreed. On the unchanged tree this never
+				// happens; after a change it means the obligation no longer holds as stated.
+				v.reason = "not discharged: " + firstLine(r.Output)
 			}
 			os.MkdirAll(replayDir, 0o755)
 			v.replay = filepath.Join(replayDir, sanitizeFile(r.O.Name)+".json")
@@ -417,4 +422,15 @@ var propScope = map[string]string{}
 
 func tryReplay(w *vc.World, r *vc.Result, rep map[string]any) (bool, string) {
 	return false, "no automatic replay available for this obligation; the solver output is attached"
+}
+
+func firstLine(s string) string {
+	s = strings.TrimSpace(s)
+	if i := strings.IndexByte(s, '\n'); i >= 0 {
+		s = s[:i]
+	}
+	if len(s) > 300 {
+		s = s[:300]
+	}
+	return s
 }
